@@ -58,6 +58,11 @@ def option_sets():
     S.append(("ddiff-d", "ddiff", ["2012-03-01", "-f", "%d"], ("d", "junk")))
     S.append(("ddiff-ymd", "ddiff", ["2012-03-31", "-f", "%Y %m %d"], ("d", "junk")))
     S.append(("ddiff-HM", "ddiff", ["2012-03-01T12:00:00", "-f", "%H:%M:%S"], ("dt", "junk")))
+    # named output formats have a date and a date-time variant, picked per value: plain dates and date-times in one run
+    S.append(("ddiff-named-ymd", "ddiff", ["2012-01-01T00:00:00", "-f", "ymd"], P))
+    S.append(("ddiff-named-ywd", "ddiff", ["2012-01-01T06:00:00", "-f", "ywd"], P))
+    S.append(("ddiff-named-yd", "ddiff", ["2011-12-31", "-f", "yd"], P))
+    S.append(("ddiff-default", "ddiff", ["2012-01-01T00:00:00"], P))
     S.append(("dgrep-gt", "dgrep", [">2012-01-15"], ("d", "junk")))
     S.append(("dgrep-le-dt", "dgrep", ["<=2012-06-30T23:59:59"], ("dt", "junk")))
     S.append(("dgrep-eq", "dgrep", ["=2012-02-29"], ("d", "junk")))
@@ -82,7 +87,9 @@ def pool_for(kinds, rng):
     if "dur" in kinds:
         # durations: plain, compound, signed, and lines that start like a duration but are none
         out += ["1d", "3d", "-2d", "+1w", "1mo", "-1y", "2b", "1d2h", "1mo1d", "90m", "36h", "+0d", "1y2mo3d", "-1mo-1d",
-                "2d x", "1w ", "3mo junk", "1d1", "d", "x", "1x", "--1d", "5", "1d 1d", "1q", "-3b", "86400s", "1h30m15s"]
+                "2d x", "1w ", "3mo junk", "1d1", "d", "x", "1x", "--1d", "5", "1d 1d", "1q", "-3b", "86400s", "1h30m15s",
+                # numbers that do not fit: refused, and the refusal must not outlive the line
+                "4294967296d", "99999999999999999999d", "-9223372036854775809s", "2147483648mo", "1d99999999999999999999h"]
         return out
     # some random ones
     for _ in range(25):
